@@ -81,8 +81,7 @@ def spec_token(rng, kw, bangs):
     if c == "code":
         body = "".join(rng.choice(["a", " ", "}", "]", "{", "[", "\n", '"', "}}", "] ]", "é"]) for _ in range(rng.choice([0, 1, 4, 8])))
         body = body.replace("}]", "} ]")
-        if body.endswith("}"):
-            body += " "
+        # (a body may end in any number of `}`: the fragment ends at the first `}]`, which then is the last one)
         return "[{" + body + "}]", "CodeFragment"
     if c == "var":
         return "$" + rng.choice("abz_AZ") + "".join(rng.choice("abc019_") for _ in range(rng.choice([0, 1, 3]))), "VarName"
@@ -218,6 +217,27 @@ def run(ck):
         if got != want:
             ck.fail(["C14", "signed-literal", text], "%r is not lexed as %s" % (text, want), {"cmd": "lex", "text_hex": hexs(text)}, ra[:200], str(want))
     ck.count("signed_glued", 0, set(stexts), sample={"text": stexts[3]})
+    # (1g) code fragments end at the first `}]`, whatever braces and brackets stand in front of it; strings end at the first quote
+    # that no odd run of backslashes escapes
+    edges = []
+    for body in ["", "}", "}}", "}}}", "}}}}", "a}}", "{a}}", " if (x) { y; }}", "]", "]}", "]]", "[{", "[{ }", "{", "}{", "\n}}", "\u00e9}}", "}}\n", "} }"]:
+        t = "[{" + body + "}]"
+        edges.append((t + " ;", [("CodeFragment", len(t.encode())), ("Semi", 1)]))
+        edges.append((t + "[{ b }]", [("CodeFragment", len(t.encode())), ("CodeFragment", 7)]))
+    for body in ["\\\\", "\\\\\\\"", "a\\\\\\\"b", "\\\"\\\\", "\\\\\\\\\\\"", "\\t\\n\\\\", "\\\\\\\"\\\\\\\""]:
+        t = '"' + body + '"'
+        edges.append((t + " x", [("StrVal", len(t)), ("Id", 1)]))
+    etexts = [t for t, _ in edges]
+    ea_, _ = core.compare(ck, "terminator_edges", etexts, lambda s_: "lex %s" % hexs(s_), counted=True)
+    for (text, want), ra in zip(edges, ea_):
+        got = []
+        for x in ra.split(" "):
+            if x and x.split(":")[0] not in ("Whitespace", "Eof"):
+                k_, _, n_ = x.partition(":")
+                got.append((k_, int(n_) if n_.isdigit() else None))
+        if got != want:
+            ck.fail(["C14", "terminator", text], "%r is not lexed as %s" % (text, want), {"cmd": "lex", "text_hex": hexs(text)}, ra[:200], str(want))
+    ck.count("terminator_edges", 0, set(etexts), sample={"text": etexts[5]})
     # (2) spec-level sequences: reference expectation vs implementation (and model)
     cases = []
     for _ in range(1500 if quick else 400000):
